@@ -5,6 +5,7 @@ SPEC = dict(
     props_files=["lean/Qx/Props/C07.lean"],
     drivers=["qxdriver_c07"],
     harnesses=[dict(name="iqtable", asan=False, driver="qxdriver_c07")],
+    translators=["promise_sites.py"],
     exhaustive=True,
     rule="(A) op sequences over {QXmppClient::sendIq(id,to), OutgoingIqManager::sendIq(packet,id,to), finish(id,send error), "
          "resetCache, <a/> ack, enable SM, received iq/message/presence of type get/set/result/error/none with any id and from "
@@ -17,16 +18,24 @@ SPEC = dict(
          "the real client and the Lean model. (B) QXmppMamManager::retrieveMessages with a dummy QXmppE2eeExtension (instant / deferred "
          "decryption) or none: exhaustive to depth 4 over {start, matching/foreign result message plain/encrypted, <fin/> result, "
          "error or non-resumable close, decryption report 0/1} and to depth 5 / 6 after an initial start, x 4 configurations, plus random; compares finish events with the Lean "
-         "machine. (C) 30 request APIs of the client and bundled managers x {empty result, error, unexpected payload, silence, reply "
+         "machine. (C) 50 request APIs of the client and bundled managers x {empty result, error, unexpected payload, silence, reply "
          "from a stranger} + duplicate reply + the same call a second time + non-resumable session end: completions counted (oracle only). A sequence is "
          "non-trivial when it yields >= 2 distinct observations. (D) session boundaries through the REAL negotiation of a real client "
          "(FakeSock transport, handleStart, <stream:features/>, <resume/> answered <resumed/> or <failed/>, bind, <enable/> answered "
          "<enabled resume?/>, loss via _q_socketDisconnected, orderly disconnectFromHost) with requests outstanding: exhaustive to "
          "depth 5 / 6 over {send, reply, loss, reconnect+resumed, reconnect+failed+new SM session, reconnect+session without SM, orderly "
          "disconnect} plus random (also non-resumable SM session, stranger reply); model side = Neg layer (connect(sm,resumable,resumed), "
-         "loss, disconnect); oracle judges by what the scripted server answered, never by client flags.",
+         "loss, disconnect); oracle judges by what the scripted server answered, never by client flags. (E) QXmppBlockingManager::"
+         "fetchBlocklist (shared IQ, promise list, cache): exhaustive to depth 6 / 7 over {fetch, IQ result, IQ error, new session, resumed "
+         "session} against the Blocklist machine. (F) QXmppClient::sendSensitiveIq with a deferred dummy extension: exhaustive to depth "
+         "4 / 5 over {start, encrypt ok/fail, IQ result/error, decrypt ok/not-encrypted/fail, extension removed} against the Sensitive "
+         "machine. Translator promise_sites.py regenerates the table of every QXmppPromise construction and chain*/parseIq use in "
+         "src/client (79 sites today); part C runs one case per request-API function it can reach (each first in a forked probe, so a "
+         "crashing converter is reported instead of killing the harness); coverage = stats api_functions_exercised / api_functions_found.",
     trusted_base=[
         "Lean 4.33.0 kernel; axioms per theorem listed under coverage.theorems (subset of propext, Classical.choice, Quot.sound)",
+        "translators/promise_sites.py (regex reader; anchors: shape of chain/chainIq/chainSuccess/chainMapSuccess in QXmppFutureUtils_p.h, "
+        ">= 40 chain-like sites, >= 10 promise constructions) and the hand classification ownPromiseSites in Props/C07.lean",
         "hand-written model lean/Qx/Model/C07Iq.lean, tied to src/client/QXmppOutgoingClient.cpp (OutgoingIqManager, sendIq, "
         "openSession/closeSession, destructor), src/base/QXmppStreamManagement.cpp (send / resetCache) and "
         "src/client/QXmppMamManager.cpp (retrieveMessages) by the correspondence run",
@@ -45,7 +54,11 @@ SPEC = dict(
         "a request stays pending while the peer is silent and the session lives or is resumable: timeouts are the caller's domain",
         "chain/chainIq/chainSuccess: the attach-one-continuation-and-finish pattern is proved on the C13 task model (chain_once, "
         "chain_once_ready, chain_at_most_once); that each manager API is built only from these combinators is not checked by a "
-        "translator — the manager layer (part C) counts completions on the implementation instead (partial)",
+        "translator — superseded: translators/promise_sites.py + all_chain_sites_pure now check that every chain-like site in src/client "
+        "is `return chain*(<request-table task | task of another pure-chain function>, …)`; converters are assumed total (a converter "
+        "that crashes is outside the model: found by the forked probes of part C)",
+        "hand-rolled promise sites without a Lean machine (account migration, MIX/roster import-export, JMI, call invites) are "
+        "listed in ownPromiseSites with their coverage; only counted on the implementation or not exercised (partial)",
     ],
     level_text="Theorems for every configuration and operation list: a request number is completed at most once and, in every reachable "
                "state, is either pending or completed exactly once (permutation invariant); a completion by reply implies a received "
@@ -55,7 +68,10 @@ SPEC = dict(
                "or non-resumable end completes a pending request. MAM machine: finished at most once always, and exactly once (state released) for every "
                "history once the IQ has completed and all decryption jobs have reported, with or without e2ee, empty page included. Negotiated boundaries (Neg): a session that is not a resumption leaves nothing pending whatever SM state it has, "
                "a genuine resumption retains everything, orderly disconnect cancels; the client's belief 'can resume' is exactly what the server granted, so the loss of a session "
-               "without (resumable) stream management leaves nothing pending, for every history. chain_once: a task built by chain finishes exactly once when its source does "
+               "without (resumable) stream management leaves nothing pending, for every history. Blocklist machine: every fetchBlocklist call completes exactly once once the shared IQ is answered or a new session begins. "
+               "Sensitive machine: the promise of sendSensitiveIq is finished exactly when the pipeline has ended, once, and no stage can stall it. "
+               "Site table: every chain-like site is pure-chain, every promise construction is a classified hand-rolled site. "
+               "chain_once: a task built by chain finishes exactly once when its source does "
                "(context alive), at most once always.",
     level_note="Proved about the hand-written models; model-to-code tie is differential (exhaustive to a depth, sampled beyond). "
                "Continuation chaining and the other managers are checked by direct counting on the implementation only.",
